@@ -44,8 +44,9 @@ var catalogs = map[string][]world.ITSpec{
 	// K3: reserved offerings (shared reservation id r1 on both types), plus on-demand
 	"K3": {{Name: "m", CPU: 4, MemGi: 8, Pods: 6, Offers: []world.OfSpec{{Zone: "a", CT: "reserved", Price: 0.01, Available: true, RID: "r1", ResCap: 1}, of("a", "on-demand", 2), of("b", "on-demand", 2.1)}},
 		{Name: "l", CPU: 8, MemGi: 16, Pods: 8, Offers: []world.OfSpec{{Zone: "a", CT: "reserved", Price: 0.02, Available: true, RID: "r1", ResCap: 1}, {Zone: "b", CT: "reserved", Price: 0.02, Available: true, RID: "r2", ResCap: 2}, of("a", "on-demand", 4), of("b", "on-demand", 4.1)}}},
-	// K4: provider labels fam / gen, one offering with a smaller capacity override
-	"K4": {{Name: "s", CPU: 2, MemGi: 4, Pods: 4, Fam: "x", Gen: "1", Offers: std(1)},
+	// K4: provider labels fam / gen, one offering with a smaller capacity override (m, zone b spot) and one with a
+	// LARGER one (s, zone a on-demand: 4 cpu instead of 2)
+	"K4": {{Name: "s", CPU: 2, MemGi: 4, Pods: 4, Fam: "x", Gen: "1", Offers: []world.OfSpec{of("a", "spot", 0.6), of("b", "spot", 0.65), {Zone: "a", CT: "on-demand", Price: 1, Available: true, OverCPU: 4}, of("b", "on-demand", 1.05)}},
 		{Name: "m", CPU: 4, MemGi: 8, Pods: 6, Fam: "y", Gen: "2", Offers: []world.OfSpec{of("a", "spot", 1.2), {Zone: "b", CT: "spot", Price: 1.0, Available: true, OverCPU: 3}, of("a", "on-demand", 2), of("b", "on-demand", 2.1)}},
 		{Name: "l", CPU: 8, MemGi: 16, Pods: 8, Fam: "x", Gen: "3", Ext: map[string]int{"example.com/gpu": 1}, Offers: std(4)}},
 }
